@@ -34,6 +34,7 @@ EXPLANATION = (
     "ham_data['chol'] / ['rot_chol'] is never sliced partially inside an estimator without the "
     "complementary slice. SIB-2 (dependence form) for hand-written restricted energies. "
     ' SIB-2 (dependence form): every hand-written _calc_energy* / its restricted entry point reads each trial component the overlap of the same class reads (an estimator that ignores part of the trial cannot be the mixed estimator of that trial). The private per-determinant NOCI helpers are judged with their parameters as the calling method passes them (parameter order, names and record packing are free). '
+    ' SIB-2 (dependence form): in rhf._calc_energy and uhf._calc_energy every exchange contraction x * x.T squares an intermediate that depends on one walker block only (collinear determinants do not exchange between spin sectors). '
 )
 NOT_DECIDED = (
     "the half-rotated-integral and Wick formulas as formulas (coefficients, exchange vs Coulomb index "
